@@ -12,6 +12,11 @@ with the model evaluated inside Coq on the same inputs (with shuffle, the observ
 model as the permutation oracle and checked to be a permutation).  RolloutBaseline is driven on a real TSPEnv
 (5 nodes, exact integral point sets) with a stub row-wise policy through setup/_update_policy, wrap_dataset and
 the REINFORCE module's setup / on_train_epoch_end / train_dataloader.
+Histories of wrappings (Data/DatasetStore.v): the SAME dataset object is wrapped k = 2..3 times with different tagged
+extras (ds.add_key, and the real RolloutBaseline: wrap_dataset -> epoch -> _update_policy / epoch_callback with another
+policy -> wrap_dataset again -> epoch), reads through different loaders (batch sizes, shuffle, partial final batch,
+single items, older wrappers) interleaved; every emitted extra must be the value of the wrapper read through / of the
+CURRENT baseline policy for exactly that instance; the whole trace is compared with the store model in Coq.
 Spec-on-impl (every run): the property's executable statement is evaluated on the implementation's own output;
 a failure is reported through ctx.failure.  DataLoader workers > 0 are NOT exercised (runtime behaviour)."""
 import math
@@ -270,8 +275,10 @@ def unit_name(spec):
 PTS = [(5, 0), (-5, 0), (9, 0), (-9, 0), (16, 0), (-16, 0), (35, 0), (-35, 0), (0, 12)]
 
 
-def tour_len_int(pts):
-    """length of the closed tour 0,1,..,n-1,0 over integer points whose pairwise distances are integers"""
+def tour_len_int(pts, tour=None):
+    """length of the closed tour 0,1,..,n-1,0 (or `tour`) over integer points whose pairwise distances are integers"""
+    if tour is not None:
+        pts = [pts[i] for i in tour]
     L = 0
     for a, b in zip(pts, pts[1:] + pts[:1]):
         d2 = (a[0] - b[0]) ** 2 + (a[1] - b[1]) ** 2
@@ -284,23 +291,26 @@ def tour_len_int(pts):
 class World:
     """a real TSPEnv over a fixed pool of 8 exact 5-node instances, and a stub row-wise policy"""
 
-    def __init__(self, rng=None, insts=None):
+    def __init__(self, rng=None, insts=None, tours=None):
         t = T()
         torch, TensorDict = t["torch"], t["TensorDict"]
         import torch.nn as nn
         from rl4co.envs.routing.tsp.generator import TSPGenerator
+        self.tours = [tuple(x) for x in (tours or [(0, 1, 2, 3, 4)])]    # one stub policy per fixed tour
         if insts is None:
-            insts, lens = [], set()
-            while len(insts) < POOL:          # 8 instances with pairwise different rewards (a mis-pairing is then visible)
-                pts = rng.sample(PTS, 5)
-                L = tour_len_int(pts)
-                if L in lens:
+            insts, lens = [], [set() for _ in self.tours]
+            while len(insts) < POOL:          # 8 instances with pairwise different rewards (a mis-pairing is then visible),
+                pts = rng.sample(PTS, 5)      # and per instance a different reward under every tour (a stale value is then visible)
+                Ls = [tour_len_int(pts, tr) for tr in self.tours]
+                if any(L in seen for L, seen in zip(Ls, lens)) or len(set(Ls)) != len(Ls):
                     continue
-                lens.add(L)
+                for L, seen in zip(Ls, lens):
+                    seen.add(L)
                 insts.append(pts)
         insts = [[tuple(p) for p in inst] for inst in insts]
         self.insts = insts
-        self.table = [-tour_len_int(p) for p in insts]           # reward * 128, exact
+        self.tables = [[-tour_len_int(p, tr) for p in insts] for tr in self.tours]   # reward * 128, exact, per stub policy
+        self.table = self.tables[0]
         self.pool = {"locs": torch.tensor([[[x / 128.0, y / 128.0] for (x, y) in p] for p in insts], dtype=torch.float32)}
         world = self
 
@@ -316,17 +326,18 @@ class World:
                 return TensorDict({"locs": world.pool["locs"][idx].clone()}, batch_size=batch_size)
 
         class StubPolicy(nn.Module):
-            """row-wise and deterministic: the reward of the fixed tour 0,1,2,3,4 computed by the real env"""
+            """row-wise and deterministic: the reward of the fixed tour world.tours[tid] computed by the real env"""
 
-            def __init__(self):
+            def __init__(self, tid=0):
                 super().__init__()
                 self.w = nn.Parameter(torch.zeros(1))
                 self.log = []
+                self.tid = tid
 
             def forward(self, td, env=None, phase=None, decode_type=None, **kw):
                 B = td["locs"].shape[0]
                 self.log.append([identify("locs", td["locs"][r], world.pool) for r in range(B)])
-                actions = torch.arange(5)[None].expand(B, 5)
+                actions = torch.tensor(world.tours[self.tid], dtype=torch.long)[None].expand(B, 5)
                 return {"reward": env.get_reward(td, actions)}
 
         self.PoolGen, self.StubPolicy = PoolGen, StubPolicy
@@ -347,6 +358,268 @@ def rollout_spec_fail(world, content, shuffle, extra_scaled, obs):
     return None
 
 
+# ------------------------------------------------------------------------------------------ histories of wrappings
+HIST_SIG = "ExtraKeyDataset: extra of an earlier wrapper survives re-wrapping the same dataset"
+TOURS = [(0, 1, 2, 3, 4), (0, 2, 1, 3, 4), (0, 1, 3, 2, 4), (0, 3, 1, 2, 4)]
+
+
+def _loader_kw(seed):
+    if seed is None:
+        return {}
+    g = T()["torch"].Generator()
+    g.manual_seed(int(seed))
+    return {"shuffle": True, "generator": g}
+
+
+def _item_obs(it, einfo, pool, kid, tagmul, escale):
+    """one record returned by wrapper[i] -> [(key number, tag)] in the record's own key order"""
+    out = []
+    for k in it.keys():
+        v = it[k]
+        if k == einfo["key"]:
+            good = hasattr(v, "dtype") and v.dtype == einfo["dtype"] and tuple(v.shape) == tuple(einfo["shape"])
+            out.append((KX, scaled(v, escale) if good else BADZ))
+        else:
+            c = identify(k, v, pool)
+            out.append((kid.get(k, 15), c * tagmul + kid.get(k, 15) if c >= 0 else -1))
+    return out
+
+
+def play_events(ds, events, make_wrapper, einfo, pool, kid, tagmul, escale):
+    """Runs a history on the real objects.  events: wrap / get / pass / base dicts; make_wrapper(ev) -> (wrapper, extra values
+    scaled).  -> one observation per event, stopping after the first event that raises:
+    {"wrap": [...]} | {"item": [(k, tag)..]} | {"batches": obs, "problems": [...]} | {"raise": text}"""
+    from torch.utils.data import DataLoader
+    wrappers, out = [], []
+    for ev in events:
+        try:
+            if ev["op"] in ("wrap", "wrappol"):
+                w, vals = make_wrapper(ev)
+                wrappers.append(w)
+                out.append({"wrap": vals})
+            elif ev["op"] == "get":
+                out.append({"item": _item_obs(wrappers[ev["w"]][ev["i"]], einfo, pool, kid, tagmul, escale)})
+            else:
+                d = wrappers[ev["w"]] if ev["op"] == "pass" else ds
+                dl = DataLoader(d, batch_size=ev["b"], collate_fn=d.collate_fn, **_loader_kw(ev.get("seed")))
+                obs, probs = observe_batches([x for x in dl], einfo, pool, kid, tagmul, escale)
+                out.append({"batches": obs, "problems": probs})
+        except Exception as e:  # noqa: BLE001 -- an exception is an observable (the model says None)
+            out.append({"raise": "%s: %s" % (type(e).__name__, str(e)[:160])})
+            break
+    return out
+
+
+def wrapper_extra(ds, w, escale):
+    """the extra values the new wrapper holds, dataset order (FastGeneration: the column of the one dataset object)"""
+    ex = w.extra if hasattr(w, "extra") else ds.data["extra"]
+    return [scaled(v, escale) for v in ex]
+
+
+def run_history(spec):
+    """plain history: the same dataset object, ds.add_key("extra", tagged values) k times, reads interleaved"""
+    t = T()
+    torch, D = t["torch"], t["D"]
+    ds = getattr(D, spec["cls"])(make_td(spec["content"], spec["keys"]))
+    dt = getattr(torch, spec["dtype"])
+
+    def make_wrapper(ev):
+        ex = torch.tensor([v / 64.0 for v in ev["vals64"]], dtype=torch.float64).to(dt)
+        w = ds.add_key("extra", ex)
+        return w, wrapper_extra(ds, w, 64)
+
+    return play_events(ds, spec["events"], make_wrapper, {"key": "extra", "dtype": dt, "shape": ()}, None, KID, 16, 64)
+
+
+def judge_history(cls, content, kids, tagmul, events, wrap_expected, outs):
+    """The property on what the implementation emitted along a history.  wrap_expected[j] = the values wrapper j must
+    carry (dataset order): the extras it was given / the CURRENT baseline policy's reward of each instance.
+    -> None | (unit, mechanism, detail)"""
+    unit = "ExtraKeyDataset" if cls != "TensorDictDatasetFastGeneration" else "TensorDictDatasetFastGeneration.add_key"
+    nw = 0
+    for j, (ev, o) in enumerate(zip(events, outs)):
+        if ev["op"] == "base":
+            continue                      # reading the base dataset after wrapping: observation only (never judged)
+        if "raise" in o:
+            return unit, "history-raises", "event %d %s raises %s" % (j, {k: v for k, v in ev.items() if k != "vals64"}, o["raise"])
+        if ev["op"] in ("wrap", "wrappol"):
+            exp = wrap_expected[nw]
+            nw += 1
+            if list(o["wrap"]) != list(exp):
+                return ("RolloutBaseline.wrap_dataset(%s)" % cls if ev["op"] == "wrappol" else unit,
+                        "reward-not-aligned-with-instance" if ev["op"] == "wrappol" else "wrapper-holds-other-extras",
+                        "event %d: wrapper %d holds %s, expected %s for instances %s" % (j, nw - 1, list(o["wrap"]), list(exp), list(content)))
+            continue
+        w = ev["w"] if cls != "TensorDictDatasetFastGeneration" else nw - 1      # FastGeneration: every handle is the one object
+        exp = wrap_expected[w]
+        if ev["op"] == "get":
+            obs = [(1, [(k, [v]) for k, v in o["item"]])]
+            sub = [content[ev["i"]]]
+            bad = spec_on_obs(sub, kids, False, [exp[ev["i"]]], obs, tagmul)
+        else:
+            obs = o["batches"]
+            bad = spec_on_obs(content, kids, ev.get("seed") is not None, exp, obs, tagmul)
+            if bad is None and o["problems"]:
+                bad = ("dtype-or-shape-changed", "; ".join(o["problems"][:3]))
+        if bad is None:
+            continue
+        if bad[0] == "extra-not-paired-with-its-instance":
+            # whose value is it?  tagged extras: the value of an EARLIER wrapper for the same instance = a survivor
+            pos = {c: i for i, c in enumerate(content)}
+            stale = []
+            for n, cols in obs:
+                d = dict(cols)
+                for r in range(n):
+                    tag = d[kids[0]][r]
+                    c = tag // tagmul
+                    e = d[KX][r]
+                    if c in pos and e != exp[pos[c]]:
+                        older = [w2 for w2 in range(nw) if w2 != w and wrap_expected[w2][pos[c]] == e]
+                        stale.append((c, e, exp[pos[c]], older))
+            if stale and all(older and min(older) < w for (_, _, _, older) in stale):
+                c, e, x, older = stale[0]
+                return ("ExtraKeyDataset" if unit == "ExtraKeyDataset" else unit,
+                        "extra of an earlier wrapper survives re-wrapping the same dataset",
+                        "event %d (%s through wrapper %d): instance %d came with %s = wrapper %d's value for it, wrapper %d's own is %s (%d of the emitted items carry an earlier wrapper's value)"
+                        % (j, ev["op"], w, c, e, older[0], w, x, len(stale)))
+        return unit, bad[0] + "-in-history", "event %d (%s through wrapper %d): %s" % (j, ev["op"], w, bad[1])
+    return None
+
+
+def history_specs(ctx):
+    """k = 2..3 wrappings of one dataset object with tagged extras (unique per wrapper and position), reads in between"""
+    rng = ctx.rng
+    reps = 6 if ctx.tier == "quick" else 24
+    specs = []
+    allkeys = list(KID)
+    for cls in CLASSES:
+        shared = cls != "TensorDictDatasetFastGeneration"        # separate wrapper objects (an old one can still be read)
+        for rep in range(reps):
+            N = rng.randint(2, 7 if ctx.tier == "quick" else POOL)
+            content = rng.sample(range(POOL), N)
+            keys = rng.sample(allkeys, rng.randint(1, 3))
+            k = 2 + rep % 2
+            dt = rng.choice(["float32", "float32", "float64", "int64"])
+            events = []
+
+            def a_pass(w):
+                return {"op": "pass", "w": w, "b": rng.randint(1, N + 1), "seed": rng.choice([None, rng.randint(0, 2 ** 31 - 1)])}
+
+            for j in range(k):
+                vals = [(j + 1) * 100 + 10 * i + rng.randint(0, 9) for i in range(N)]
+                events.append({"op": "wrap", "vals64": [v * 64 for v in vals] if dt == "int64" else vals})
+                mode = "epoch" if rep < 2 else rng.choice(["epoch", "epoch", "partial", "epoch+partial", "two-epochs", "none"])
+                if j == k - 1:
+                    mode = "epoch"
+                if "epoch" in mode:
+                    events.append(a_pass(j))
+                if mode == "two-epochs":
+                    events.append(a_pass(j))
+                if "partial" in mode and shared:
+                    for i in rng.sample(range(N), rng.randint(1, N)):
+                        events.append({"op": "get", "w": j, "i": i})
+                if j >= 1 and shared and rng.random() < 0.6:      # an OLDER wrapper is read again, then the current one
+                    w_old = rng.randrange(j)
+                    events.append(a_pass(w_old) if rng.random() < 0.5 else {"op": "get", "w": w_old, "i": rng.randrange(N)})
+                    events.append(a_pass(j))
+            b_part = next((b for b in range(2, N + 1) if N % b), N)      # a final partial batch where N allows one
+            events.append({"op": "pass", "w": k - 1, "b": b_part, "seed": None})
+            events.append({"op": "pass", "w": k - 1, "b": rng.randint(1, N + 1), "seed": rng.randint(0, 2 ** 31 - 1)})
+            specs.append({"cls": cls, "content": content, "keys": keys, "dtype": dt, "events": events})
+    return specs
+
+
+def c_hist_case(ci, disc, tdm, idkey, content, tagmul, events, outs, tables=None):
+    """-> Coq term of type hcase"""
+    evs, obs = [], []
+    for ev, o in zip(events, outs):
+        raised = "raise" in o
+        if ev["op"] == "wrap":
+            evs.append("HWrap %s" % c_zlist(ev["vals64"]))
+            obs.append("HOWrap %s" % c_opt(None if raised else c_zlist(o["wrap"])))
+        elif ev["op"] == "wrappol":
+            evs.append("HWrapPol %s %s" % (c_zlist(tables[ev["tid"] if ev.get("tid") is not None else ev["wanted_tid"]]), cnat(ev["bb"])))
+            obs.append("HOWrap %s" % c_opt(None if raised else c_zlist(o["wrap"])))
+        elif ev["op"] == "get":
+            evs.append("HGet %s %s" % (cnat(ev["w"]), cnat(ev["i"])))
+            obs.append("HOItem %s" % c_opt(None if raised else "[" + "; ".join("(%s, %s)" % (cnat(k), cz(v)) for k, v in o["item"]) + "]"))
+        else:
+            order = None
+            if ev.get("seed") is not None:
+                order = (order_from_obs(content, o["batches"], tagmul) if not raised else None) or list(range(len(content)))
+            head = "HPass %s" % cnat(ev["w"]) if ev["op"] == "pass" else "HBase"
+            evs.append("%s %s %s" % (head, cnat(ev["b"]), c_shuffle(order)))
+            obs.append("HOBatches %s" % c_obs(None if raised else o["batches"]))
+    return "HC %s %s %s %s %s [%s] [%s]" % (cnat(ci), cnat(disc), tdm, cnat(idkey), cnat(KX), "; ".join(evs), "; ".join(obs))
+
+
+def rollout_history_spec(rng, world, cls, nmax):
+    """RolloutBaseline on ONE training set: setup(policy 0) -> wrap_dataset -> epoch(s) -> the baseline policy is replaced
+    (_update_policy / epoch_callback with a better candidate) -> wrap_dataset(the same dataset) -> epoch(s) [-> once more]"""
+    while True:
+        M = rng.randint(2, 5)
+        content_m = rng.sample(range(POOL), M)
+        sums = [sum(tb[c] for c in content_m) for tb in world.tables]
+        if len(set(sums)) == len(sums):
+            break
+    tids = sorted(range(len(world.tours)), key=lambda i: sums[i])      # ascending mean reward: each candidate beats the incumbent
+    k = rng.choice([2, 3])
+    N = rng.randint(2, nmax)
+    steps = []
+    for j in range(k):
+        passes = [{"b": rng.randint(1, N + 1), "seed": rng.choice([None, rng.randint(0, 2 ** 31 - 1)])} for _ in range(rng.choice([1, 1, 2]))]
+        steps.append({"tid": tids[j], "via": None if j == 0 else rng.choice(["_update_policy", "epoch_callback"]), "passes": passes})
+    return {"cls": cls, "content": rng.sample(range(POOL), N), "eval_content": content_m, "bb": rng.randint(1, N + 1), "steps": steps}
+
+
+def run_rollout_history(world, spec):
+    """-> (events, outs, current policy id per wrapping).  The events are what the history did to the training set's
+    dataset object: wrappol (wrap_dataset under the policy that IS the baseline's at that moment) and loader passes."""
+    t = T()
+    torch = t["torch"]
+    from rl4co.models.rl.reinforce.baselines import RolloutBaseline
+    env = world.env(spec["cls"])
+    bb, M, N = spec["bb"], len(spec["eval_content"]), len(spec["content"])
+    einfo = {"key": "extra", "dtype": torch.float32, "shape": ()}
+    bl = RolloutBaseline(bl_alpha=1.0)        # one-sided p < 1: a candidate with a better mean always replaces the incumbent
+    env.generator.plan = [list(spec["eval_content"])]
+    bl.setup(world.StubPolicy(spec["steps"][0]["tid"]), env, batch_size=bb, device="cpu", dataset_size=M)
+    env.generator.plan = [list(spec["content"])]
+    ds = env.dataset(N, phase="train")
+    events, current = [], []
+    state = {"j": 0}
+
+    def make_wrapper(ev):
+        st = spec["steps"][state["j"]]
+        state["j"] += 1
+        if st["via"] is not None:
+            env.generator.plan = [list(spec["eval_content"])]
+            cand = world.StubPolicy(st["tid"])
+            if st["via"] == "_update_policy":
+                bl._update_policy(cand, env, bb, "cpu", M)
+            else:
+                bl.epoch_callback(cand, env, bb, "cpu", state["j"], M)
+        ev["tid"] = int(bl.policy.tid)         # the baseline policy as it IS now
+        current.append(ev["tid"])
+        w = bl.wrap_dataset(ds, env, batch_size=bb, device="cpu")
+        return w, wrapper_extra(ds, w, 128)
+
+    for j, st in enumerate(spec["steps"]):
+        events.append({"op": "wrappol", "bb": bb, "tid": None, "via": st["via"], "wanted_tid": st["tid"]})
+        for ps in st["passes"]:
+            events.append({"op": "pass", "w": j, "b": ps["b"], "seed": ps["seed"]})
+    outs = play_events(ds, events, make_wrapper, einfo, world.pool, {"locs": 0}, 1, 128)
+    return events, outs, current
+
+
+def judge_rollout_history(world, spec, events, outs):
+    cur = [ev["tid"] for ev in events if ev["op"] == "wrappol" and ev["tid"] is not None]
+    exp = [[world.tables[tid][c] for c in spec["content"]] for tid in cur]
+    while len(exp) < len(spec["steps"]):
+        exp.append([None] * len(spec["content"]))
+    return judge_history(spec["cls"], spec["content"], [0], 1, events, exp, outs)
+
+
 def run(ctx: Ctx, proofs_ok: bool):
     import logging
     logging.getLogger("rl4co").setLevel(logging.ERROR)      # 'val_file not set. Generating dataset instead' x N
@@ -361,7 +634,11 @@ def run(ctx: Ctx, proofs_ok: bool):
                 "batch sizes 1..N+1 x sequential/shuffled (seeded generator; observed order = permutation oracle) x extra key off/on "
                 "(float32/float64/int64), + wrong-length extras, N = 0, b = 0.  RolloutBaseline: real TSPEnv(5 nodes, integral point sets), "
                 "stub row-wise policy, evaluation batch sizes 1..N+1, training batch sizes 1..N+1, shuffle off/on; setup/_update_policy; "
-                "REINFORCE.setup/on_train_epoch_end/train_dataloader.  non-trivial = N >= 2 and (>= 2 batches or shuffled or extra key)")
+                "REINFORCE.setup/on_train_epoch_end/train_dataloader.  HISTORIES: one dataset object of each class wrapped k = 2..3 times "
+                "(add_key with extras tagged uniquely per wrapper and position; real RolloutBaseline with 4 stub policies whose rewards differ on "
+                "every instance: setup -> wrap_dataset -> epoch(s) -> _update_policy / epoch_callback -> wrap_dataset of the SAME dataset -> epoch(s)), "
+                "reads interleaved (loaders b = 1..N+1, sequential/shuffled, final partial batch, single items, older wrappers), whole trace "
+                "compared with the store model.  non-trivial = N >= 2 and (>= 2 batches or shuffled or extra key)")
     ctx.assumptions += [
         "torch DataLoader contract (K3, trusted, observed): SequentialSampler = 0..n-1, RandomSampler = a permutation, BatchSampler(drop_last=False) = consecutive chunks; num_workers = 0 only (workers > 0 NOT exercised)",
         "the baseline policy acts row by row (Section hypothesis polB_rowwise, shared with C14); the stub policy of the harness satisfies it by construction",
@@ -590,6 +867,96 @@ def run(ctx: Ctx, proofs_ok: bool):
                     if bad:
                         report(unit, bad[0], bad[1], robj)
 
+    # ================================================================== 2b. histories of wrappings of ONE dataset object
+    hcases, hcases_sd, hmetas = [], [], []      # _sd: the same cases against the setdefault discipline (diagnosis only)
+    for spec in history_specs(ctx):
+        outs = run_history(spec)
+        kids = [KID[k] for k in spec["keys"]]
+        evs = spec["events"][:len(outs)]
+        tdm = c_td(len(spec["content"]), [(KID[k], [c * 16 + KID[k] for c in spec["content"]]) for k in spec["keys"]])
+        hcases.append(c_hist_case(CLASSES.index(spec["cls"]), 0, tdm, kids[0], spec["content"], 16, evs, outs))
+        hcases_sd.append(c_hist_case(CLASSES.index(spec["cls"]), 1, tdm, kids[0], spec["content"], 16, evs, outs))
+        hmetas.append({"kind": "history", "spec": spec, "observed": outs})
+        nwr = sum(1 for e in spec["events"] if e["op"] == "wrap")
+        ctx.seen({"h": spec}, nontrivial=True)
+        ctx.count("history_cases_%s" % spec["cls"])
+        ctx.count("history_wrappings=%d" % nwr)
+        ctx.count("history_loader_passes", sum(1 for e in spec["events"] if e["op"] == "pass"))
+        ctx.count("history_single_reads", sum(1 for e in spec["events"] if e["op"] == "get"))
+        seen_w, older = -1, 0
+        for e in spec["events"]:
+            if e["op"] == "wrap":
+                seen_w += 1
+            elif e["w"] < seen_w:
+                older += 1
+        ctx.count("history_reads_through_an_older_wrapper", older)
+        wexp = [e["vals64"] for e in spec["events"] if e["op"] == "wrap"]
+        bad = judge_history(spec["cls"], spec["content"], kids, 16, evs, wexp, outs)
+        if bad:
+            report(bad[0], bad[1], bad[2], {"kind": "history", "spec": spec, "observed": outs})
+        if spec["cls"] == "TensorDictDataset" and nwr == 3 and sum(1 for m in hmetas if m["kind"] == "history") <= 6 and len(ctx.samples) < 7:
+            ctx.sample({"unit": "history of wrappings (TensorDictDataset)", "spec": spec, "observed per event": outs})
+
+    hworld = World(rng, tours=TOURS)
+    htables = hworld.tables
+    not_replaced = 0
+    for cls in CLASSES:
+        for rep in range(3 if ctx.tier == "quick" else 10):
+            spec = rollout_history_spec(rng, hworld, cls, nmax)
+            try:
+                evs, outs, current = run_rollout_history(hworld, spec)
+                err = None
+            except Exception as e:  # noqa: BLE001 -- setup itself failed
+                evs, outs, current, err = [], [], [], "%s: %s" % (type(e).__name__, str(e)[:200])
+            robj = {"kind": "rollout_history", "spec": spec, "pool_points": hworld.insts, "tours": [list(x) for x in hworld.tours],
+                    "tables_reward_x128": htables, "events": evs, "observed": outs, "error": err}
+            ctx.seen({"rh": spec}, nontrivial=True)
+            ctx.count("rollout_history_cases_%s" % cls)
+            ctx.count("rollout_history_wrappings=%d" % len(spec["steps"]))
+            for st in spec["steps"][1:]:
+                ctx.count("rollout_history_policy_replaced_via_%s" % st["via"])
+            unit = "RolloutBaseline.wrap_dataset(%s)" % cls
+            if err is not None:
+                report(unit, "history-raises", err, robj)
+                continue
+            not_replaced += sum(1 for st, tid in zip(spec["steps"], current) if st["tid"] != tid)
+            evs = evs[:len(outs)]
+            tdn = c_td(len(spec["content"]), [(0, spec["content"])])
+            hcases.append(c_hist_case(CLASSES.index(cls), 0, tdn, 0, spec["content"], 1, evs, outs, htables))
+            hcases_sd.append(c_hist_case(CLASSES.index(cls), 1, tdn, 0, spec["content"], 1, evs, outs, htables))
+            hmetas.append(robj)
+            bad = judge_rollout_history(hworld, spec, evs, outs)
+            if bad:
+                report(bad[0], bad[1], bad[2], robj)
+            if cls == "TensorDictDataset" and rep == 0:
+                ctx.sample({"unit": "RolloutBaseline history (TensorDictDataset)", "spec": spec, "reward_x128_per_policy_and_pool_id": htables,
+                            "events": evs, "observed per event (locs id / extra x128)": outs})
+    if not_replaced:
+        ctx.notes.append("C17 histories: %d time(s) the baseline policy was NOT replaced although the candidate's mean reward was better "
+                         "(bl_alpha = 1); the histories were judged against the policy the baseline actually held" % not_replaced)
+    try:
+        codes = coq_eval_shards("cases_C17_hist", HEADER, "hcase", "check_hist", hcases, shard=16)
+    except RuntimeError as e:
+        codes = None
+        ctx.broken.append("correspondence C17/histories could not be evaluated: %s" % str(e)[-600:])
+    if codes is not None:
+        nz = [(i, c) for i, c in enumerate(codes) if c != 0]
+        ctx.units["histories of wrappings of one dataset object (store model, Data/DatasetStore.v)"] = {
+            "cases": len(codes), "plain add_key histories": sum(1 for m in hmetas if m["kind"] == "history"),
+            "RolloutBaseline histories": sum(1 for m in hmetas if m["kind"] == "rollout_history"), "disagreements": len(nz)}
+        if nz:
+            i, c = nz[0]
+            m = hmetas[i]
+            diag = ""
+            try:       # does the implementation now behave like the discipline refuted in C17_store_setdefault_refuted?
+                sd = coq_eval_shards("cases_C17_hist_sd", HEADER, "hcase", "check_hist", [hcases_sd[j] for j, _ in nz], shard=16)
+                diag = "; %d of the %d disagreeing histories AGREE with the setdefault discipline (C17_store_setdefault_refuted)" % (sum(1 for x in sd if x == 0), len(nz))
+            except RuntimeError:
+                pass
+            ctx.broken.append("correspondence C17/histories: store model and implementation differ on %d case(s)%s; first: code %d "
+                              "(100000*event + 12 wrapper's extras / 20+k single item / 100*batch+k emitted batch / 5,6 raise mismatch / 7 length / 8 kind; 9002 order not a permutation) %s"
+                              % (len(nz), diag, c, {k: v for k, v in m.items() if k in ("kind", "spec", "events")}))
+
     for name, fn, typ, cs, ms in (("update", "check_update", "ucase", ucases, umetas), ("rollout", "check_rollout", "rcase", rcases, rmetas)):
         try:
             codes = coq_eval_shards("cases_C17_" + name, HEADER, typ, fn, cs, shard=120)
@@ -607,7 +974,7 @@ def run(ctx: Ctx, proofs_ok: bool):
 
     # ================================================================== 3. observations outside the property (information only)
     try:
-        obs_info = observations(ctx)
+        obs_info = observations(ctx, hworld)
     except Exception as e:  # noqa: BLE001 -- informational only: must never decide anything
         obs_info = {"error": "%s: %s" % (type(e).__name__, str(e)[:200])}
         ctx.notes.append("C17 observations (outside the property) could not be reproduced on this tree: %s" % obs_info["error"])
@@ -646,12 +1013,27 @@ def search_more(ctx):
                           None if spec["extra"] is None else spec["extra"]["vals64"], res["obs"])
         if bad:
             out.append(("%s: %s" % (unit_name(spec), bad[0]), dict(robj, what=bad[1])))
+    tier = ctx.tier
+    ctx.tier = "thorough"                      # the larger history sample
+    try:
+        hspecs = history_specs(ctx)
+    finally:
+        ctx.tier = tier
+    for spec in hspecs:
+        outs = run_history(spec)
+        ctx.count("search_cases")
+        bad = judge_history(spec["cls"], spec["content"], [KID[k] for k in spec["keys"]], 16, spec["events"][:len(outs)],
+                            [e["vals64"] for e in spec["events"] if e["op"] == "wrap"], outs)
+        if bad:
+            out.append(("%s: %s" % (bad[0], bad[1]), {"kind": "history", "spec": spec, "observed": outs, "unit": bad[0],
+                                                       "what": "%s -- %s" % (bad[1], bad[2])}))
     return out
 
 
-def observations(ctx):
-    """Two behaviours of ExtraKeyDataset outside C17's quantifier (single wrap, one extra key, read through a loader),
-    reproduced for information; the model states them as *_observation_outside_property lemmas.  Never reported."""
+def observations(ctx, world=None):
+    """Behaviours of ExtraKeyDataset outside C17's quantifier (one extra key, read through a loader over a WRAPPER, whole
+    epochs between wrappings), reproduced for information; the model states them as *_observation_outside_property
+    lemmas.  Never reported."""
     t = T()
     torch, D = t["torch"], t["D"]
     from torch.utils.data import DataLoader
@@ -696,11 +1078,46 @@ def observations(ctx):
         nnotes.append({cls: err or "keys emitted after add_key('a').add_key('b'): %s" % [k for k, _ in o[0][1]]})
         ncases.append("NC %s %s (%s, %s) (%s, %s) %s %s" % (cnat(ci), tdm, cnat(8), c_zlist(ev), cnat(KX), c_zlist(e2), cnat(4), c_obs(o)))
     out["nested-add_key-drops-earlier-extra-key"] = nnotes
+    # (3) the records of the base dataset are written by every read through a wrapper: after wrap / epoch / re-wrap / epoch
+    #     the BASE dataset emits an extra column with the latest reader's values (harmless: a later wrapper overwrites it)
+    hcases, hnotes = [], []
+    spec = {"cls": "TensorDictDataset", "content": content, "keys": keys, "dtype": "float32", "events": [
+        {"op": "wrap", "vals64": ev}, {"op": "pass", "w": 0, "b": 3, "seed": None}, {"op": "base", "b": 4, "seed": None},
+        {"op": "wrap", "vals64": e2}, {"op": "pass", "w": 1, "b": 2, "seed": None}, {"op": "base", "b": 4, "seed": None},
+        {"op": "get", "w": 0, "i": 2}, {"op": "base", "b": 4, "seed": None}]}
+    houts = run_history(spec)
+    hcases.append(c_hist_case(0, 0, tdm, KID[keys[0]], content, 16, spec["events"][:len(houts)], houts))
+    hnotes.append({"wrap / epoch / base / re-wrap / epoch / base / old_wrapper[2] / base: extra column the base dataset emits":
+                   [[col for k, col in o["batches"][0][1] if k == KX] if "batches" in o else o.get("raise") for e, o in zip(spec["events"], houts) if e["op"] == "base"]})
+    # (4) RolloutBaseline.wrap_dataset(ds) again after a PARTIAL pass through the previous wrapper: the rollout over the base
+    #     dataset meets a first record that has the key and a later one that has not -> KeyError in collate_fn
+    if world is not None:
+        rspec = {"cls": "TensorDictDataset", "content": [3, 0, 6, 2], "eval_content": [1, 4], "bb": 2,
+                 "steps": [{"tid": 0, "via": None, "passes": []}, {"tid": 1, "via": "_update_policy", "passes": []}]}
+        t_ = T()
+        from rl4co.models.rl.reinforce.baselines import RolloutBaseline
+        env = world.env("TensorDictDataset")
+        bl = RolloutBaseline()
+        env.generator.plan = [[1, 4]]
+        bl.setup(world.StubPolicy(0), env, batch_size=2, device="cpu", dataset_size=2)
+        env.generator.plan = [rspec["content"]]
+        ds = env.dataset(4, phase="train")
+        evs2 = [{"op": "wrappol", "bb": 2, "tid": 0, "wanted_tid": 0}, {"op": "get", "w": 0, "i": 0}, {"op": "wrappol", "bb": 2, "tid": 0, "wanted_tid": 0}]
+
+        def mk(ev_):
+            w_ = bl.wrap_dataset(ds, env, batch_size=2, device="cpu")
+            return w_, wrapper_extra(ds, w_, 128)
+
+        o2 = play_events(ds, evs2, mk, {"key": "extra", "dtype": t_["torch"].float32, "shape": ()}, world.pool, {"locs": 0}, 1, 128)
+        hcases.append(c_hist_case(0, 0, c_td(4, [(0, rspec["content"])]), 0, rspec["content"], 1, evs2[:len(o2)], o2, world.tables))
+        hnotes.append({"wrap_dataset(ds); wrapper[0]; wrap_dataset(ds) again": o2[-1].get("raise", "returns")})
+    out["base-dataset-records-carry-the-latest-readers-extra"] = hnotes
     try:
         c1 = coq_eval_shards("cases_C17_obs_alias", HEADER, "ocase", "check_obs_alias", ocases)
         c2 = coq_eval_shards("cases_C17_obs_nested", HEADER, "ncase", "check_obs_nested", ncases)
-        out["model_agrees"] = all(c == 0 for c in c1 + c2)
-        out["codes"] = c1 + c2
+        c3 = coq_eval_shards("cases_C17_obs_hist", HEADER, "hcase", "check_hist", hcases)
+        out["model_agrees"] = all(c == 0 for c in c1 + c2 + c3)
+        out["codes"] = c1 + c2 + c3
     except RuntimeError as e:
         out["model_agrees"] = None
         out["error"] = str(e)[-300:]
@@ -731,6 +1148,40 @@ def replay(obj):
         print("recorded :", obj.get("observed"), obj.get("error"))
         print("now      :", res["obs"], res["error"], res["problems"])
         print("property on the current tree:", "HOLDS on this case" if (bad is None and res["obs"] is not None and not res["problems"]) else "FAILS: %s" % (bad or res["error"] or res["problems"],))
+        return 0
+    if obj.get("kind") == "history":
+        spec = obj["spec"]
+        outs = run_history(spec)
+        evs = spec["events"][:len(outs)]
+        bad = judge_history(spec["cls"], spec["content"], [KID[k] for k in spec["keys"]], 16, evs,
+                            [e["vals64"] for e in spec["events"] if e["op"] == "wrap"], outs)
+        print("dataset  :", spec["cls"], "instances (content ids)", spec["content"], "keys", spec["keys"], "extra dtype", spec["dtype"])
+        print("tags     : instance fields = content id * 16 + key number; extra = value * 64 (unique per wrapper and position)")
+        for j, ev in enumerate(spec["events"]):
+            rec = obj.get("observed", [])
+            print("event %2d : %s" % (j, json.dumps(ev)))
+            print("   recorded:", json.dumps(rec[j]) if j < len(rec) else "(not reached)")
+            print("   now     :", json.dumps(outs[j]) if j < len(outs) else "(not reached)")
+        print("property on the current tree:", "HOLDS on this case" if bad is None else "FAILS: %s: %s -- %s" % bad)
+        return 0
+    if obj.get("kind") == "rollout_history" and obj.get("pool_points"):
+        import logging
+        logging.getLogger("rl4co").setLevel(logging.ERROR)
+        world = World(insts=obj["pool_points"], tours=obj["tours"])
+        spec = obj["spec"]
+        print("training set (pool ids):", spec["content"], " baseline evaluation set:", spec["eval_content"], " eval batch size:", spec["bb"], " class:", spec["cls"])
+        print("reward*128 of each pool instance under stub policy t:", {t: tb for t, tb in enumerate(world.tables)})
+        try:
+            evs, outs, current = run_rollout_history(world, spec)
+            bad = judge_rollout_history(world, spec, evs[:len(outs)], outs)
+            rec = obj.get("observed", [])
+            for j, ev in enumerate(evs):
+                print("event %2d : %s" % (j, json.dumps(ev)))
+                print("   recorded:", json.dumps(rec[j]) if j < len(rec) else "(not reached)")
+                print("   now     :", json.dumps(outs[j]) if j < len(outs) else "(not reached)")
+            print("property on the current tree:", "HOLDS on this case" if bad is None else "FAILS: %s: %s -- %s" % bad)
+        except Exception as e:  # noqa: BLE001
+            print("property on the current tree: FAILS (raises) %s: %s" % (type(e).__name__, e))
         return 0
     if obj.get("kind") in ("wrap_dataset", "update_policy") and obj.get("pool_points"):
         t = T()
